@@ -10,6 +10,7 @@ Properties/C16.lean — richness estimators (chao1, var_chao1, chao2) and overla
 
 Only property theorems and non-vacuity examples live here; helpers are in Proofs/StatsSets.lean.
 -/
+import Prs.Proofs.FormulasRichness
 import Prs.Proofs.StatsSets
 import Mathlib.Algebra.Order.Field.Rat
 import Mathlib.Algebra.Order.Field.Basic
@@ -242,6 +243,24 @@ example : overlapCoefficient [1, 2, 2, 3] [3, 2, 5]
     = some (((([1, 2, 2, 3] : List ℕ).toFinset ∩ ([3, 2, 5] : List ℕ).toFinset).card : ℚ)
         / ((min ([1, 2, 2, 3] : List ℕ).toFinset.card ([3, 2, 5] : List ℕ).toFinset.card : ℕ) : ℚ)) :=
   C16_overlap_coefficient _ _ (by simp) (by simp)
+
+/-! ### the sources, as translated from pyrepseq/stats.py on this run, are the models -/
+
+theorem C16_source_chao1 (f : List ℚ) : Generated.chao1 f = chao1 f := gen_chao1_eq f
+theorem C16_source_var_chao1 (f : List ℚ) : Generated.var_chao1 f = varChao f := gen_var_chao1_eq f
+theorem C16_source_chao2 (q : List ℚ) (m : ℚ) : Generated.chao2 q m = chao2 q := gen_chao2_eq q m
+theorem C16_source_var_chao2 (q : List ℚ) (m : ℚ) : Generated.var_chao2 q m = varChao q := gen_var_chao2_eq q m
+theorem C16_source_jaccard {β : Type} [DecidableEq β] (a b : List β) :
+    Generated.jaccard_index a b = jaccard a b := gen_jaccard_eq a b
+theorem C16_source_overlap {β : Type} [DecidableEq β] (a b : List β) :
+    Generated.overlap a b = overlapCount a b := gen_overlap_eq a b
+theorem C16_source_overlap_coefficient {β : Type} [DecidableEq β] (a b : List β) :
+    Generated.overlap_coefficient a b = overlapCoefficient a b := gen_overlap_coefficient_eq a b
+
+/-- so the source's chao1 is never below the observed richness on count data -/
+theorem C16_source_chao1_ge_observed (f : List ℚ) (hnat : ∀ x ∈ f, ∃ n : ℕ, x = n) :
+    f.sum ≤ Generated.chao1 f := by
+  rw [C16_source_chao1]; exact C16_chao1_ge_observed f hnat
 
 end Prs
 
